@@ -291,6 +291,30 @@ def two_writes(ctx, via):
     return ctx.done(ok, [sorted(rb.attrs.keys()), sorted(rc.attrs.keys())])
 
 
+def numeric_strings(ctx, via, nd):
+    """str data / str labels that look like numbers stay strings (decided by its real-stack replay: concrete text)"""
+    if nd == 0:
+        a = ctx.da.DimArray(ctx.np.array('42'))
+        exp = None
+    else:
+        labels = [['1', '2.5', 'nan'], [10, 20]][:nd]
+        vals = ['007', '1e3', 'nan', '42', '-0', 'inf'][:3 * (2 if nd == 2 else 1)]
+        a = ctx.mk(['s', 'n'][:nd], labels, vals, lkinds=['U', 'i'][:nd], kind='O', register=False)
+        exp = Ref(['s', 'n'][:nd], labels, vals)
+    if via == 'json':
+        r = ctx.call(lambda: ctx.da.DimArray.from_json(a.to_json()))
+    else:
+        r = ctx.call(lambda: ctx.da.DimArray.from_jsondict(a.to_jsondict()))
+    if r[0] != 'ok':
+        return ctx.done(False, r[1], inplace=True)
+    b = r[1]
+    if nd == 0:
+        ok = b.values.ndim == 0 and b.values.tolist() == '42'
+    else:
+        ok = ctx.AND(same(ctx, b, exp), all(isinstance(x, str) for x in ctx.flat(b.values.tolist())), all(isinstance(x, str) for x in b.axes[0].values.tolist()))
+    return ctx.done(ok, ctx.observe(b), inplace=True)
+
+
 def templates():
     ts = []
 
@@ -326,6 +350,9 @@ def templates():
         add('bytes-input-%s' % ea, 'bytes_input', cost=0.1, ensure_ascii=ea)
     for via in ('json', 'jsondict'):
         add('two-writes-%s' % via, 'two_writes', cost=0.2, via=via)
+    for via in ('json', 'jsondict'):
+        for nd in (0, 1, 2):
+            add('numeric-strings-%s-%dd' % (via, nd), 'numeric_strings', cost=0.1, via=via, nd=nd)
     add('jsondict-shape', 'jsondict_shape', cost=0.2)
     for via in ('json', 'jsondict'):
         add('special-values-%s' % via, 'special_values', cost=0.2, via=via)
